@@ -181,6 +181,10 @@ def make_project(spec, F=None, D=None):
 
 def apply_factors(spec, ps):
     data = spec["data"]
+    for q, bypop in data["q"].items():
+        m = {d.get("m") for d in bypop.values() if isinstance(d, dict)} - {None}
+        if m and q in ps.pars:
+            ps.pars[q]._interpolation_method = sorted(m)[0]  # per-parameter interpolation method of the parameter set (default 'linear')
     for q, bypop in (data.get("yf") or {}).items():
         for pop, f in bypop.items():
             ps.pars[q].y_factor[pop] = f
